@@ -5,14 +5,14 @@ From UV Require Model.WrClose.
 
 (* one caller: result, whether its ctx had been cancelled by the time it returned *)
 Inductive case :=
-| COutcome (complete hs_err closed : bool) (callers : list (result * bool))
+| COutcome (complete hs_err closed reneg : bool) (callers : list (result * bool))
 (* Close during a Write: was the peer stalled, did Write return nil, did both return *)
 | CWrClose (stalled write_ok both_returned : bool).
 
 Definition check (c : case) : bool :=
   match c with
-  | COutcome co he cl callers =>
-      negb (co && he) && forallb (fun x => outcome_ok (fst x) co he cl (snd x)) callers
+  | COutcome co he cl rn callers =>
+      negb (co && he) && forallb (fun x => outcome_ok (fst x) co he cl (snd x) rn) callers
   (* C26_interlock: both calls return, and a Write that returned nil had its record written (impossible on a stalled peer) *)
   | CWrClose stalled write_ok both => both && negb (stalled && write_ok)
   end.
